@@ -812,9 +812,12 @@ class Emitter:
             raise EmitError('%s: call of unknown function %s' % (cx.fname, name))
         if f[0] == 'qid':
             parts = f[1]; q = '::'.join(parts)
-            if q == 'std::min':
+            if q in ('std::min', 'std::max'):
                 a, aty = self.ex(args[0], cx); b, bty = self.ex(args[1], cx)
-                return ('VB_MIN(%s, %s)' % (a, b), aty or bty)
+                if f[2]:
+                    ct = self.ctype(f[2][0])
+                    a = '((%s)(%s))' % (ct, a); b = '((%s)(%s))' % (ct, b); aty = f[2][0]
+                return ('%s(%s, %s)' % ('VB_MIN' if q == 'std::min' else 'VB_MAX', a, b), aty or bty)
             if q == 'std::numeric_limits' or (parts[:2] == ['std', 'numeric_limits']):
                 ty = f[2][0]
                 if parts[-1] != 'max': raise EmitError('numeric_limits::%s' % parts[-1])
@@ -933,6 +936,45 @@ class Emitter:
             return self.expr_stmt(s[1], cx, ind, s[2])
         if k == 'decl':
             return self.decl_stmt(s, cx, ind)
+        if k == 'arraydecl':
+            _, ty, name, dim, init, line = s
+            d, _ = self.ex(dim, cx)
+            aty = Type(ty.name, ty.args, ty.ptr + 1, False, ty.const, ty.suffix)
+            aty.is_array = True
+            cx.declare(name, aty)
+            out = pad + '%s %s[%s];\n' % (self.ctype(ty), name, d)
+            if init is not None:
+                out += pad + 'memset(%s, 0, sizeof(%s));\n' % (name, name)
+                for i, e in enumerate(init):
+                    out += pad + '%s[%d] = %s;\n' % (name, i, self.ex(e, cx)[0])
+            return out
+        if k == 'for':
+            _, init, cond, step, body, line = s
+            cx.push(); cx.cleanup.append([])
+            out = pad + '{\n'
+            if init is not None: out += self.stmt(init, cx, ind + 1)
+            cx.cur_maythrow = False
+            c = self.ex(cond, cx)[0] if cond is not None else '1'
+            st = self.ex(step, cx)[0] if step is not None else ''
+            if cx.cur_maythrow: raise EmitError('%s:%d: may-throw call in for header' % (cx.fname, line))
+            cx.loop_no += 1
+            hook = 'LOOP_%s_%d' % (cx.cname, cx.loop_no)
+            cx.loops.append(hook)
+            out += pad + '    for (; %s; %s)\n' % (c, st) + pad + '    ' + hook + '\n' + self.as_block(body, cx, ind + 1)
+            cx.cleanup.pop(); cx.pop()
+            return out + pad + '}\n'
+        if k == 'dowhile':
+            _, cond, body, line = s
+            cx.loop_no += 1
+            hook = 'LOOP_%s_%d' % (cx.cname, cx.loop_no)
+            cx.loops.append(hook)
+            b = self.as_block(body, cx, ind)
+            cx.cur_maythrow = False
+            c = self.ex(cond, cx)[0]
+            if cx.cur_maythrow: raise EmitError('%s:%d: may-throw call in loop condition' % (cx.fname, line))
+            return pad + 'do\n' + pad + hook + '\n' + b + pad + 'while (%s);\n' % c
+        if k == 'continue':
+            return pad + 'continue;\n'
         if k == 'if':
             cx.cur_maythrow = False
             c, cty = self.ex(s[1], cx)
